@@ -239,14 +239,29 @@ def link_attr(draw, n, directed=False, lo=1, hi=20, denom=None):
 
 def represent_adj(A, key=None):
     """The same 0/1 adjacency matrix as another 'square array-like': int64,
-    int8, bool, float64, Fortran order, nested lists, scipy csr / csc / coo -
+    int8, bool, float64, Fortran order, nested lists, scipy csr / csc / coo,
+    csr / csc with explicitly stored zeros -
     chosen as a pure function of the matrix (or of `key`)."""
     import zlib
     import scipy.sparse as sp
     A = np.ascontiguousarray(np.asarray(A).astype(np.int64))
     if key is None:
         key = zlib.crc32(A.tobytes()) ^ (len(A) * 2654435761 & 0xffffffff)
-    k = key % 9
+    k = key % 11
+    if k in (9, 10):
+        # sparse matrices may hold explicitly STORED zeros (after
+        # S[i, j] = 0 or S.data[...] = 0): they are not links
+        n = len(A)
+        rows, cols, vals = [], [], []
+        for i in range(n):
+            for j in range(n):
+                if A[i, j]:
+                    rows.append(i); cols.append(j); vals.append(1)
+                elif i != j and (3 * i + 5 * j + key) % 4 == 0:
+                    rows.append(i); cols.append(j); vals.append(0)
+        M = sp.coo_matrix((vals, (rows, cols)), shape=(n, n), dtype=np.int64)
+        M = M.tocsr() if k == 9 else M.tocsc()
+        return M
     if k == 1:
         return A.astype(np.int8)
     if k == 2:
